@@ -2479,6 +2479,10 @@ func (self *TextServerProtocol) ProcessLockResultCommand(lockCommand *protocol.L
 		0, 0, 0, 0, 0, 0, 0, 0,
 		0, 0, 0, 0, 0, 0, 0, 0
 
+	if self.closed {
+		return errors.New("Protocol Closed")
+	}
+
 	if self.freeCommandResult == nil {
 		lockResultCommad := protocol.NewLockResultCommand(lockCommand, result, 0, lcount, lockCommand.Count, lrcount, lockCommand.Rcount, data)
 		self.lockWaiter <- lockResultCommad
@@ -2686,6 +2690,7 @@ func (self *TextServerProtocol) commandHandlerLock(_ *TextServerProtocol, args [
 			}
 			self.glock.Unlock()
 		}
+		lockCommand.CommandType = protocol.COMMAND_LOCK
 		_ = self.willCommands.Push(lockCommand)
 		return self.stream.WriteBytes(self.parser.BuildResponse(true, "OK", nil))
 	}
@@ -2731,6 +2736,7 @@ func (self *TextServerProtocol) commandHandlerUnlock(_ *TextServerProtocol, args
 			}
 			self.glock.Unlock()
 		}
+		lockCommand.CommandType = protocol.COMMAND_UNLOCK
 		_ = self.willCommands.Push(lockCommand)
 		return self.stream.WriteBytes(self.parser.BuildResponse(true, "OK", nil))
 	}
